@@ -18,8 +18,9 @@
 (*  [ev="end",s,op,res,n,max,match,pending]                                *)
 (*        res: "ok" | "data" (recv returned n bytes; match = they equal    *)
 (*        the next n bytes the peer wrote) | "eos" (EndOfStream) |         *)
-(*        "broken" (BrokenResourceError) | "other"; pending = bytes left   *)
-(*        in the outgoing BIO when the call returned                       *)
+(*        "broken" (BrokenResourceError) | "closed" (ClosedResourceError)  *)
+(*        | "other" (any other exception); pending = bytes left in the     *)
+(*        outgoing BIO when the call returned                              *)
 (*  [ev="tsend",s,n]      the stream of s called transport.send(n bytes)   *)
 (*  [ev="trecv",s,pending] the stream of s called transport.receive()      *)
 (*        while `pending` bytes sat in its outgoing BIO                    *)
@@ -33,9 +34,21 @@
 (* The peer's closing handshake is what the peer's stream hands to the     *)
 (* transport while its aclose() runs (the close_notify alert); it has      *)
 (* reached side x when every byte up to its end has been handed to x.      *)
+(* The end of a stream is observed as often as the application asks: every *)
+(* receive() after the first one that raised is judged by the same clauses *)
+(* (the verdict is stable: EndStable), and no exception other than anyio's *)
+(* EndOfStream / BrokenResourceError / ClosedResourceError may escape from *)
+(* receive(), from send(), or from the aclose() that follows a clean end   *)
+(* (NoUnexpectedException).  A send() may fail only after the side's own   *)
+(* receive() has reported the end.                                         *)
 (* Everything the statement of C17 is silent about is accepted: the result *)
-(* of aclose(), how much data precedes a reported truncation, how a        *)
-(* receive splits the data of a record.                                    *)
+(* of aclose() of a stream whose end was not observed, how much data       *)
+(* precedes a reported truncation, how a receive splits the data of a      *)
+(* record, which of anyio's exceptions a send() after the end raises.      *)
+(* NOT observed (pinned tree, see notes/finding_C17.md): the result of     *)
+(* aclose() of a standard_compatible stream AFTER a reported truncation -  *)
+(* SSLObject.unwrap() on the dead engine raises ssl.SSLError               *)
+(* (SHUTDOWN_WHILE_IN_INIT), which aclose() lets through.                  *)
 (***************************************************************************)
 EXTENDS Naturals, Sequences, FiniteSets
 
@@ -56,7 +69,8 @@ TlsP0(scc, scs) ==
    teof |-> TNo,                    \* the transport reported end-of-file to the side
    parked |-> TNo,                  \* the side waits in transport.receive()
    op |-> [c |-> "new", s |-> "new"],
-   ended |-> TNo]                   \* the side's receive() has raised
+   ended |-> TNo,                   \* the side's receive() has raised
+   endres |-> [c |-> "", s |-> ""]] \* ... with this result (the first time)
 
 \* the peer's closing handshake has completely reached x
 CnIn(p, x) == p.cnend[TPeer(x)] > 0 /\ p.tdelivered[x] >= p.cnend[TPeer(x)]
@@ -68,7 +82,9 @@ EndClauses(p, x, op, res) ==
    CleanEndAfterAllData |-> (cn /\ op = "recv" /\ res = "eos") => p.delivered[x] = p.sentok[TPeer(x)],
    TruncationIsBroken |-> (~cn /\ p.teof[x] /\ p.sc[x]) => res = "broken",
    TruncationIsEndOfStreamWhenNotStandard |-> (~cn /\ p.teof[x] /\ ~p.sc[x]) => res = "eos",
-   EndOnlyWhenTransportEnded |-> cn \/ p.teof[x]]
+   EndOnlyWhenTransportEnded |-> cn \/ p.teof[x],
+   EndStable |-> (op = "recv" /\ p.ended[x]) => res = p.endres[x],
+   NoUnexpectedException |-> op = "recv" => res # "other"]
 
 \* nothing can move any more
 StallClauses(p) ==
@@ -93,15 +109,23 @@ TlsApply(p, e) ==
          IF e.res = "ok"
          THEN [p |-> [p EXCEPT !.op[e.s] = "idle", !.sentok[e.s] = @ + e.n],
                bad |-> TNames([OutputFlushedOnReturn |-> e.pending = 0])]
-         ELSE [p |-> [p EXCEPT !.op[e.s] = "idle"], bad |-> {"SendSucceeds"}]
+         ELSE \* only a stream whose receive() has reported the end may refuse to send
+              [p |-> [p EXCEPT !.op[e.s] = "idle"],
+               bad |-> TNames([SendSucceeds |-> p.ended[e.s],
+                               NoUnexpectedException |-> e.res # "other"])]
     [] e.ev = "end" /\ e.op = "recv" ->
          IF e.res = "data"
          THEN LET cl == [Prefix |-> e.match /\ p.delivered[e.s] + e.n <= p.sentstart[TPeer(e.s)],
                          MaxBytes |-> e.n >= 1 /\ e.n <= e.max]
               IN [p |-> [p EXCEPT !.op[e.s] = "idle", !.delivered[e.s] = @ + e.n], bad |-> TNames(cl)]
-         ELSE [p |-> [p EXCEPT !.op[e.s] = "idle", !.ended[e.s] = TRUE],
+         ELSE [p |-> [p EXCEPT !.op[e.s] = "idle", !.ended[e.s] = TRUE,
+                               !.endres[e.s] = IF p.ended[e.s] THEN @ ELSE e.res],
                bad |-> TNames(EndClauses(p, e.s, "recv", e.res))]
-    [] e.ev = "end" /\ e.op = "close" -> [p |-> [p EXCEPT !.op[e.s] = "done"], bad |-> {}]
+    [] e.ev = "end" /\ e.op = "close" ->
+         \* judged only after a clean end was observed (see the head of the module)
+         [p |-> [p EXCEPT !.op[e.s] = "done"],
+          bad |-> TNames([NoUnexpectedException |->
+                            (p.ended[e.s] /\ CnIn(p, e.s)) => e.res # "other"])]
     [] e.ev = "tsend" ->
          LET t1 == p.tsent[e.s] + e.n IN
          [p |-> [p EXCEPT !.tsent[e.s] = t1,
